@@ -16,6 +16,7 @@ import (
 	"path/filepath"
 	"strings"
 	"sync"
+	"time"
 
 	"github.com/goplus/gogen"
 )
@@ -64,54 +65,96 @@ func c18Build(f *irFunc, imp types.Importer, seed int64) (out string, fault stri
 	cb.Val(pkg.Builtin().Ref("println")).Val(1).Val("x").Call(2).EndStmt()
 	cb.VarRef(nil).Val(pkg.Builtin().Ref("len")).Val("abc").Call(1).Assign(1)
 	cb.End()
+	// constants declared through ConstDefs with iota at package-dependent offsets; their VALUES are part of the result
+	off := int(seed%7) + 1
+	defs := pkg.NewConstDefs(pkg.Types.Scope())
+	for i := 0; i < 3+off; i++ {
+		i := i
+		name := fmt.Sprintf("K%d", i)
+		if i == 0 {
+			defs.New(func(cb *gogen.CodeBuilder) int {
+				cb.Val(cb.Scope().Lookup("iota")).Val(off).BinaryOp(token.MUL)
+				return 1
+			}, 0, token.NoPos, nil, name)
+		} else {
+			defs.Next(i, token.NoPos, name)
+		}
+	}
 	var buf bytes.Buffer
 	if err := pkg.WriteTo(&buf); err != nil {
 		return "", "WriteTo: " + err.Error()
+	}
+	for _, n := range pkg.Types.Scope().Names() {
+		if c, ok := pkg.Types.Scope().Lookup(n).(*types.Const); ok {
+			fmt.Fprintf(&buf, "// const %s = %s\n", n, c.Val().ExactString())
+		}
 	}
 	return buf.String(), ""
 }
 
 func c18Child(a *runArgs) error {
 	nProg, rounds, par := 24, 3, 8
+	limit := 8 * time.Minute
 	if a.Tier == "thorough" {
 		nProg, rounds, par = 120, 12, 16
+		limit = 40 * time.Minute
 	}
+	time.AfterFunc(limit, func() { fmt.Println("RESULT timeout"); os.Exit(3) }) // never outlive the check
 	r := rand.New(rand.NewSource(a.Seed))
 	progs := make([]*irFunc, nProg)
 	for i := range progs {
 		progs[i] = genIRFunc(r, "F", 1+r.Intn(4))
 	}
-	base := make([]string, nProg)
-	for i, f := range progs {
-		out, fault := c18Build(f, importer.ForCompiler(token.NewFileSet(), "source", nil), a.Seed)
+	build := func(i int, imp types.Importer) string {
+		out, fault := c18Build(progs[i], imp, a.Seed+int64(i))
 		if fault != "" {
-			out = "FAULT: " + fault
+			return "FAULT: " + fault
 		}
-		base[i] = out
+		return out
 	}
-	mismatches := 0
-	builds := 0
-	for round := 0; round < rounds; round++ {
-		var wg sync.WaitGroup
-		res := make([]string, nProg)
-		sem := make(chan struct{}, par)
-		for i := range progs {
-			wg.Add(1)
-			go func(i int) {
-				defer wg.Done()
-				sem <- struct{}{}
-				defer func() { <-sem }()
-				out, fault := c18Build(progs[i], importer.ForCompiler(token.NewFileSet(), "source", nil), a.Seed)
-				if fault != "" {
-					out = "FAULT: " + fault
-				}
-				res[i] = out
-			}(i)
+	newImp := func() types.Importer {
+		imp := importer.ForCompiler(token.NewFileSet(), "source", nil)
+		for _, p := range []string{"fmt", "strings", "errors", "os", "unsafe"} { // slow package loading happens before the barrier
+			imp.Import(p)
 		}
-		wg.Wait()
+		return imp
+	}
+	// the concurrent rounds come FIRST: lazily initialised shared state is still cold
+	res := make([][]string, rounds)
+	for round := 0; round < rounds; round++ {
+		res[round] = make([]string, nProg)
+		var ready, done sync.WaitGroup
+		start := make(chan struct{})
+		sem := make(chan struct{}, par)
+		for w := 0; w < par; w++ {
+			ready.Add(1)
+			done.Add(1)
+			go func(w int) {
+				defer done.Done()
+				imp := newImp()
+				ready.Done()
+				<-start
+				for i := w; i < nProg; i += par {
+					sem <- struct{}{}
+					res[round][i] = build(i, imp)
+					<-sem
+				}
+			}(w)
+		}
+		ready.Wait()
+		close(start)
+		done.Wait()
+	}
+	base := make([]string, nProg)
+	imp := newImp()
+	for i := range progs {
+		base[i] = build(i, imp)
+	}
+	mismatches, builds := 0, 0
+	for round := range res {
 		for i := range progs {
 			builds++
-			if res[i] != base[i] {
+			if res[round][i] != base[i] {
 				mismatches++
 				fmt.Printf("MISMATCH %d\n", i)
 			}
